@@ -268,7 +268,7 @@ def find_item(rel, kind, name, nth=0):
     return Extracted(src, toks[k][2], end, kind, name)
 
 
-def find_in_fn(fn_item, prefix, until=None, nth=0):
+def find_in_fn(fn_item, prefix, until=None, nth=0, skip=None):
     """Sub-expression of a function body: starts at the nth occurrence of `prefix`
     (matched on whitespace-normalised code text) and extends while delimiters are
     balanced until one of the `until` punctuation chars at depth 0 (default: `,` `;`
@@ -282,6 +282,12 @@ def find_in_fn(fn_item, prefix, until=None, nth=0):
     if len(hits) <= nth:
         raise AnchorLost('prefix %r not found in fn %s (%s)' % (prefix, fn_item.name, src.rel))
     start = hits[nth]
+    if skip:
+        sp = re.compile(r'\s*'.join(re.escape(p) for p in skip.split()))
+        m = sp.match(text, start)
+        if not m:
+            raise AnchorLost('skip prefix %r does not match at %r' % (skip, prefix))
+        start = m.end()
     toks = src.toks
     k0 = next(i for i, t in enumerate(toks) if t[2] >= start)
     depth = 0
